@@ -86,6 +86,23 @@ func SelfTest() error {
 			return fmt.Errorf("harness races: canary mode %d flagged in %d of %d runs (want none)", mode, flagged, runs)
 		}
 	}
+	// RWMutex writer preference: a goroutine that read-locks recursively
+	// deadlocks with a writer arriving in between (as with sync.RWMutex), in
+	// some schedules and not in all.
+	dl := 0
+	for i := 0; i < runs; i++ {
+		var rw simsync.RWMutex
+		r := sched.Run(ch, sched.Config{}, []func(int){
+			func(int) { rw.RLock(); rw.RLock(); rw.RUnlock(); rw.RUnlock() },
+			func(int) { rw.Lock(); rw.Unlock() },
+		})
+		if r.Deadlock {
+			dl++
+		}
+	}
+	if dl == 0 || dl == runs {
+		return fmt.Errorf("rwmutex canary: recursive read lock deadlocked with a writer in %d of %d runs (want some, not all)", dl, runs)
+	}
 	// Pool canaries: objects passed through a simulated pool carry the
 	// Put-before-Get edge (proper use is never reported) and nothing more (a
 	// write after Put is reported when another thread received the object).
